@@ -143,7 +143,95 @@ def r06_cd(prog: Program, chk: Check) -> None:
         )
 
 
+# ------------------------------------------------------------------- R06.e
+def _call_chunk(args):
+    part, nparts, step, objects = args
+    from ..model import Program as _P
+    from . import call_model as cmod
+
+    model = cmod.CallModel(_P())
+    n = 0
+    classes: Dict[str, Dict[str, object]] = {}
+
+    def fmt(ps):
+        out = []
+        for i, (k, d, a) in enumerate(ps):
+            out.append(f"p{i}" + (f": {a}" if a else "") + (" = <default>" if d else "") + {"POSITIONAL_ONLY": " /", "KEYWORD_ONLY": " (kw-only)", "POSITIONAL_OR_KEYWORD": ""}[k])
+        return "def f(" + ", ".join(out) + ")"
+
+    def note(key: str, bad: bool, ps, pos, kw, extra) -> None:
+        c = classes.setdefault(key, {"n": 0, "bad": 0, "witness": []})
+        c["n"] += 1  # type: ignore[operator]
+        if bad:
+            c["bad"] += 1  # type: ignore[operator]
+            w = c["witness"]
+            w.append({"signature": fmt(ps), "call": "f(" + ", ".join([repr(x) for x in pos] + [f"{k}={v!r}" for k, v in kw.items()]) + ")", **extra})  # type: ignore[union-attr]
+            w.sort(key=lambda d: (len(d["signature"]) + len(d["call"]), repr(d)))  # type: ignore[union-attr]
+            del w[4:]  # type: ignore[arg-type]
+
+    sigs = list(cmod.signatures(2))[::step]
+    for idx, ps in enumerate(sigs):
+        if idx % nparts != part:
+            continue
+        for pos, kw in cmod.calls(ps, objects):
+            n += 1
+            r = model.run(ps, pos, kw)
+            ref = cmod.reference(ps, pos, kw)
+            if r[0] == "crash":
+                note("no-crash", True, ps, pos, kw, {"error": r[1]})
+                continue
+            note("no-crash", False, ps, pos, kw, {})
+            is_err, errs, ret_ok = r
+            note(f"diagnosed iff the call does not bind or an argument is outside its parameter's declared type::{ref}", is_err != (ref != "ok"), ps, pos, kw, {"diagnosed": is_err, "messages": errs, "reference": ref})
+            note("the error flag and the shown messages agree", is_err != bool(errs), ps, pos, kw, {"is_error": is_err, "messages": errs})
+            note("the result is the declared return type", not ret_ok, ps, pos, kw, {})
+    return n, classes
+
+
+def r06_e(prog: Program, chk: Check) -> None:
+    import multiprocessing as mp
+    import os as _os
+
+    from . import call_model as cmod
+
+    if _os.environ.get("VERIF_SELFTEST"):
+        step, objects = 12, cmod.ARG_OBJECTS[:4]
+    elif chk.tier == "thorough":
+        step, objects = 1, cmod.ARG_OBJECTS
+    else:
+        step, objects = 3, (1, "a", 1.5, True)
+    chk.rule(
+        "R06.e",
+        "call checking of non-generic functions as a finite model: check_call_preprocessed -> bind_arguments -> check_call_with_bound_args -> _check_param_type_compatibility -> "
+        "can_assign_and_used_any -> the can_assign methods and TypeObject are interpreted from their AST (one stack, nothing stubbed below the signature) on signatures of 1-2 "
+        "positional-only / positional-or-keyword / keyword-only parameters with and without defaults, annotated int / str / float / object / int|str / Literal[1] / nothing, called with "
+        "literal positional and keyword arguments: the call is diagnosed exactly when it does not bind or some argument does not belong to the declared type of the parameter it binds "
+        "to, a diagnosis always comes with a message, and the result is the declared return type",
+        floor=5,
+    )
+    procs = 2 if _os.environ.get("VERIF_SELFTEST") else min(16, _os.cpu_count() or 1)
+    with mp.get_context("fork").Pool(procs) as pl:
+        results = pl.map(_call_chunk, [(i, procs * 3, step, objects) for i in range(procs * 3)])
+    total = 0
+    merged: Dict[str, Dict[str, object]] = {}
+    for n, classes in results:
+        total += n
+        for k, c in classes.items():
+            m = merged.setdefault(k, {"n": 0, "bad": 0, "witness": []})
+            m["n"] += c["n"]  # type: ignore[operator]
+            m["bad"] += c["bad"]  # type: ignore[operator]
+            m["witness"] = sorted(list(m["witness"]) + list(c["witness"]), key=lambda d: (len(d["signature"]) + len(d["call"]), repr(d)))[:4]  # type: ignore[arg-type]
+    chk.model_evaluations += total
+    chk.analysed["call_model"] = {"calls": total}
+    site = prog.site("signature", prog.func("signature", "Signature.check_call_with_bound_args"))
+    for k, c in sorted(merged.items()):
+        wit = c["witness"]
+        chk.ob("R06.e", f"signature::call-model::{k}", int(c["bad"]) == 0, site,  # type: ignore[arg-type]
+               f"{c['n']} calls, {c['bad']} failing" + (f"; smallest: {wit[0]}" if wit else ""), witness=wit)  # type: ignore[index]
+
+
 def run(prog: Program, chk: Check) -> None:
     guard(chk, r06_cd, prog, chk)
     guard(chk, r06_a, prog, chk)
     guard(chk, r06_b, prog, chk)
+    guard(chk, r06_e, prog, chk)
